@@ -388,6 +388,7 @@ func init() {
 				}
 				nw := 0
 				drift := ""
+				race := false
 				// every third behaviour runs with a lazy reader: it reads only when it is about to close, so an
 				// inbound reset finds unread messages in the stream object (receive-window accounting, C11)
 				lazy := k%3 == 0
@@ -447,6 +448,8 @@ func init() {
 						} else {
 							w.deliver(p.id)
 						}
+					case "race":
+						race = true // directed behaviours: end with Close racing the delivery of what is in the network
 					case "fire":
 						before := cnt[[2]any{op.E, "req"}]
 						for i := 0; i < 40 && cnt[[2]any{op.E, "req"}] == before; i++ {
@@ -468,7 +471,7 @@ func init() {
 				// every fourth behaviour ends with Close racing the delivery of whatever is still in the network: the
 				// packets are handed over and Close is called at once on both sides, without waiting in between
 				// (teardown while RE-CONFIG responses are being processed: every timer must end up stopped, C09)
-				if k%4 == 1 && drift == "" {
+				if (k%4 == 1 || race) && drift == "" {
 					for _, p := range w.pending(-1) {
 						if q := w.take(p.id); q != nil {
 							w.tr.emit(map[string]any{"ev": "rx", "to": 1 - q.from, "pid": q.id, "t": w.now(), "ok": true})
